@@ -20,8 +20,8 @@ func init() {
 	Registry["C13"] = &Check{
 		Spec: func(tier string) evid.Spec {
 			return evid.Spec{ID: "C13", Level: "exploration", Exhaustive: true,
-				Rule: "configurations = ordered selections of 1-3 of 6 scopes (overlapping prefixes 10.0.0.0/8, 10.1.0.0/16, ::/0, {2001:db8::/32,192.168.0.0/24}, a user-less scope on 10.0.0.0/8, a scope with nested prefixes {10.0.0.0/8, 10.20.0.0/16, 10.20.30.0/24, 2001:db8::/32, 2001:db8:20::/48}; distinct keys) x deny{none,[10.1.2.0/24],[2001:db8:1::/48],[0.0.0.0/0]} " +
-					"x allow{none,[10.0.0.0/8],[2001:db8::/32,10.1.0.0/16]}; addresses = for every prefix in the configuration its first-1, first, last, last+1 address, as IPv4, IPv6 and IPv4-mapped IPv6, plus a non-TCP address. " +
+				Rule: "configurations = ordered selections of 1-3 of 6 scopes (overlapping prefixes 10.0.0.0/8, 10.1.0.0/16, ::/0, {2001:db8::/32,192.168.0.0/24}, a user-less scope on 10.0.0.0/8, a scope with nested prefixes {10.0.0.0/8, 10.20.0.0/16, 10.20.30.0/24, 2001:db8::/32, 2001:db8:20::/48}; distinct keys) x deny{none,[10.1.2.0/24],[2001:db8:1::/48],[0.0.0.0/0],[::ffff:10.1.2.0/120] (an IPv4 prefix in IPv4-mapped spelling)} " +
+					"x allow{none,[10.0.0.0/8],[2001:db8::/32,10.1.0.0/16],[::ffff:10.0.0.0/104]}; addresses = for every prefix in the configuration its first-1, first, last, last+1 address, as IPv4, IPv6 and IPv4-mapped IPv6, plus a non-TCP address. " +
 					"Level 1: the real Loader.Get result (secret, handler, error) for every (configuration, address) against the reference admission model. Level 2 (full server over the scripted network, one configuration per scope-order class): " +
 					"a refused connection is closed with zero bytes written and zero handler invocations; a served one answers a command authorization obfuscated with the bound scope's key under that key, grants it for a user of that scope " +
 					"answers FAIL for a user that exists only in another scope, users assigned to every scope (listed in configuration order and in reverse) are granted everywhere and their session authorization returns exactly the value configured for the bound scope, and a user name configured in every scope with a different bcrypt credential logs in (PAP) with the bound scope's credential and with no other scope's. Level 3 (engine E2): four overlapping-scope configurations are built and queried under the controlled scheduler, every schedule with <= 1 (quick) / 2 (thorough) deviations, so that any concurrency inside the loader's build cannot reorder scopes unnoticed. distinct_nontrivial = distinct (configuration, address) pairs where at least one filter or two scopes match",
@@ -361,8 +361,8 @@ func c13Full(c *Ctx, rw *rworld, cs c13Case) {
 }
 
 func c13Run(c *Ctx) {
-	denies := [][]string{nil, {"10.1.2.0/24"}, {"2001:db8:1::/48"}, {"0.0.0.0/0"}}
-	allows := [][]string{nil, {"10.0.0.0/8"}, {"2001:db8::/32", "10.1.0.0/16"}}
+	denies := [][]string{nil, {"10.1.2.0/24"}, {"2001:db8:1::/48"}, {"0.0.0.0/0"}, {"::ffff:10.1.2.0/120"}}
+	allows := [][]string{nil, {"10.0.0.0/8"}, {"2001:db8::/32", "10.1.0.0/16"}, {"::ffff:10.0.0.0/104"}}
 	// ordered selections of 1..3 scopes
 	var sels [][]c13Scope
 	n := len(c13Scopes)
